@@ -272,6 +272,21 @@ def run(chk, repo, tier):
                 nm = t.attr if isinstance(t, ast.Attribute) else t.id if isinstance(t, ast.Name) else None
                 if nm in ('__array_priority__', '__array_ufunc__'):
                     pri = True
+    # reflected operators exist for the commutative operations only: `__rsub__ = __sub__` makes `10 - s` mean `s - 10`
+    bad_alias = []
+    for node in cls.node.body:
+        if isinstance(node, ast.Assign) and len(node.targets) == 1 and isinstance(node.targets[0], ast.Name) and isinstance(node.value, ast.Name):
+            t_, v_ = node.targets[0].id, node.value.id
+            if t_ in ('__rsub__', '__rtruediv__', '__rdiv__', '__rpow__', '__rfloordiv__', '__rmod__') and v_ == '__' + t_[3:]:
+                bad_alias.append(f'{t_} = {v_}')
+        elif isinstance(node, ast.FunctionDef) and node.name in ('__rsub__', '__rtruediv__', '__rpow__', '__rfloordiv__', '__rmod__'):
+            # written out: has to exchange the operands, which a call of the forward method with the same order does not
+            calls_fwd = [x for x in ast.walk(node) if isinstance(x, ast.Call) and isinstance(x.func, ast.Attribute)
+                         and x.func.attr == '__' + node.name[3:] and isinstance(x.func.value, ast.Name) and x.func.value.id == 'self']
+            if calls_fwd:
+                bad_alias.append(f'{node.name} calls self.{calls_fwd[0].func.attr}(other)')
+    chk.ob('C13-a', 'T-operator', SPEC, 'no reflected form of a non-commutative operator is the forward operator', not bad_alias,
+           '; '.join(bad_alias) + (': `x - s` is evaluated as `s - x`' if bad_alias else ''), cls.loc() if hasattr(cls, 'loc') else '')
     chk.ob('C13-a', 'T-operator', SPEC, 'numpy defers to the Spectrum (array * spectrum is one Spectrum, not an array of them)', pri,
            '__array_priority__ / __array_ufunc__ is set' if pri else 'neither __array_priority__ nor __array_ufunc__ is set: '
            'ndarray.__mul__ broadcasts over the Spectrum object and __rmul__ is never asked', cls.loc() if hasattr(cls, 'loc') else '')
@@ -289,6 +304,7 @@ def run(chk, repo, tier):
     from ..resilient import run_nested as _run_nested13
     nd13 = list(chk.not_decided)
     _run_nested13(_c14, _Remap13(chk, {'C14-c': 'C13-f'}), repo, tier, 'to_rules')
+    _run_nested13(_c14, _Remap13(chk, {'C14-a': 'C13-f'}), repo, tier, 'wave_unit_rules')
     chk.not_decided[:] = nd13
     _, paths, _ = analyse(repo, fi, types={('sym', 's1'): cls, ('sym', 's2'): cls}, unroll=True)
     for p in returns(paths):
